@@ -359,7 +359,7 @@ func runSchedule(t *testing.T, tw *trace.Writer, c *scase, idx int, res *vh.Resu
 		waits := 0
 		for _, o := range c.Sched {
 			switch o.Op {
-			case "ev", "evbad":
+			case "ev", "evbad", "evsp":
 				n++
 				text := strings.Join(c.Lines[o.K-1].Toks, "")
 				x := mkWant(o.K, n, o.S)
@@ -376,6 +376,11 @@ func runSchedule(t *testing.T, tw *trace.Writer, c *scase, idx int, res *vh.Resu
 					text += fmt.Sprint(",id:", n)
 				} else {
 					text += fmt.Sprint("|#id:", n)
+				}
+				if o.Op == "evsp" { // the line ends in a tag whose value ends in a blank: part of the tag like any other byte
+					text += ",w:x "
+					x.tags = append(x.tags, "w:x ")
+					res.Hit("line-ending-in-a-blank")
 				}
 				w.mu.Lock()
 				w.wants[n] = x
